@@ -37,7 +37,8 @@ PARTIAL = []
 ALGS = ["MD5", "MD5-sess", "SHA-256", "SHA-256-sess", "SHA-512-256", "SHA-512-256-sess"]
 QOPS = ["-", "auth", "auth-int", "auth+auth-int", "auth-int+auth", "token", "token+auth"]
 STR = ["example.org", "r e a l m", "biloxi.com", "realm-ü", "http-auth@example.org"]
-USERS = [("alice", "secret"), ("Mufasa", "Circle of Life"), ("jäsøn", "pässwörd"), ("u:ser", "p:w"), ("", "")]
+USERS = [("alice", "secret"), ("Mufasa", "Circle of Life"), ("jäsøn", "pässwörd"), ("u:ser", "p:w"), ("", ""),
+         ("50%25 off", "pw"), ("100% sûr", "x y"), ("alice%40example.org@pbx", "secret"), ("%41lice", "p%20w"), ("a\"b c", "q\"")]
 NONCES = ["dcd98b7102dd2f0e8b11d0f600bfb0c093", "7ypf/xlj9XXwfDPEoM4URrv/xwf94BcCAzFZH4GiTo0v", "n"]
 URIS = ["sip:example.org", "sip:bob@biloxi.com:5070;transport=tcp", "sips:carol@chicago.example.com"]
 
@@ -368,6 +369,19 @@ def oracle(case, impl):
                 return ["unknown algorithm in the produced header: " + alg]
             nonce = d["nonce"].encode(); cnonce = d.get("cnonce", "").encode(); uri = d["uri"].encode()
             qop = d.get("qop")
+            # the user name the header names (plain, or RFC 5987 extended: username*=UTF-8''<percent-encoded>), unless it is hashed
+            named = None
+            if d.get("userhash") != "true":
+                if "username*" in d:
+                    from urllib.parse import unquote_to_bytes
+                    ext = d["username*"]
+                    if not ext.upper().startswith("UTF-8''") or re.search(r"%(?![0-9A-Fa-f]{2})", ext):
+                        return ["the extended user name %r is not a valid RFC 5987 value" % ext]
+                    named = unquote_to_bytes(ext.split("''", 1)[1])
+                elif "username" in d:
+                    named = d["username"].encode()
+                if named is not None and all(named != u for u, _ in uniq):
+                    return ["the header names user %r, the credentials stored for realm %r belong to %r" % (named.decode("utf-8", "replace"), realm, [u.decode("utf-8", "replace") for u, _ in uniq])]
             errs = []
             for user, pw in uniq:
                 a1 = user + b":" + realm.encode() + b":" + pw
